@@ -53,10 +53,11 @@ class Execution:
 
 
 class Scheduler:
-    def __init__(self, prefix=(), horizon=20000, trace_files=None, record_trace=False):
+    def __init__(self, prefix=(), horizon=20000, trace_files=None, record_trace=False, trace_names=None):
         self.prefix = list(prefix)
         self.horizon = horizon
         self.trace_files = trace_files  # tuple of path prefixes whose lines are yield points (fine mode)
+        self.trace_names = trace_names  # optional set of function names to which line-level points are restricted
         self.record_trace = record_trace
         self.threads = []
         self.main_sem = threading.Semaphore(0)
@@ -201,6 +202,7 @@ class _LThread:
 
 def _make_tracer(s):
     files = s.trace_files
+    names = s.trace_names
 
     def local(frame, event, arg):
         if event == "line":
@@ -211,7 +213,7 @@ def _make_tracer(s):
         if event != "call":
             return None
         fn = frame.f_code.co_filename
-        if fn.startswith(files):
+        if fn.startswith(files) and (names is None or frame.f_code.co_name in names):
             return local
         return None
 
